@@ -69,6 +69,9 @@ type reqSpec struct {
 	ctxVal  string
 	status  int    // 0: the handler sets none
 	early   int    // > 0: an informational 1xx header sent before the final status
+	earlyN  int    // how many times that informational header is sent (each time with another Link header)
+	emptyW  bool   // the handler's first write is a zero-length one, made before it sets its status (the write commits 200)
+	lateHdr bool   // the handler changes its response header after the response has been committed (no effect, says net/http)
 	failAt  int    // >= 0: the client is gone from its failAt-th body write on
 	strW    bool   // the client's ResponseWriter also implements io.StringWriter
 	trailer string // != "": value of the trailer the request body announces
@@ -292,9 +295,15 @@ func (w *world) innerHandler(rw http.ResponseWriter, r *http.Request) {
 	if sp.trailer != "" && !check("trailer X-Trailer (available once the body has been read)", r.Trailer.Get("X-Trailer"), sp.trailer) {
 		return
 	}
-	if sp.early != 0 {
+	rw.Header().Set("X-Reply", "reply-"+kernel.Itoa(id))
+	for i := 0; sp.early != 0 && i < sp.earlyN; i++ {
+		rw.Header().Set("Link", "</hint-"+kernel.Itoa(id)+"-"+kernel.Itoa(i)+">")
 		rw.WriteHeader(sp.early)
 		k.Yield("handler.early")
+	}
+	if sp.emptyW {
+		_, _ = rw.Write(nil)
+		k.Yield("handler.empty-write")
 	}
 	if sp.status != 0 {
 		rw.WriteHeader(sp.status)
@@ -311,6 +320,9 @@ func (w *world) innerHandler(rw http.ResponseWriter, r *http.Request) {
 		return
 	}
 	_, _ = io.WriteString(rw, sp.reply[:len(sp.reply)/2])
+	if sp.lateHdr {
+		rw.Header().Set("X-Reply", "too late")
+	}
 	k.Yield("handler.4")
 	_, _ = io.WriteString(rw, sp.reply[len(sp.reply)/2:])
 	if !observe() {
@@ -329,8 +341,10 @@ func (w *world) innerHandler(rw http.ResponseWriter, r *http.Request) {
 // implies 200).  A client that has gone away fails every later body write.
 type clientRW struct {
 	hdr    http.Header
+	sent   http.Header // the header as it was when the response was committed
 	body   []byte
 	infos  []int
+	links  []string // the Link header sent with each informational response
 	code   int
 	failAt int
 	writes int
@@ -368,10 +382,14 @@ func (c *clientRW) Header() http.Header { return c.hdr }
 
 func (c *clientRW) WriteHeader(code int) {
 	switch {
+	case c.code != 0:
+		// Superfluous: the response has been committed.
 	case code >= 100 && code < 200 && code != http.StatusSwitchingProtocols:
 		c.infos = append(c.infos, code)
-	case c.code == 0:
+		c.links = append(c.links, c.hdr.Get("Link"))
+	default:
 		c.code = code
+		c.sent = c.hdr.Clone()
 	}
 }
 
@@ -382,6 +400,7 @@ func (c *clientRW) Hijack() (net.Conn, *bufio.ReadWriter, error) { return nil, n
 func (c *clientRW) Write(b []byte) (int, error) {
 	if c.code == 0 {
 		c.code = http.StatusOK
+		c.sent = c.hdr.Clone()
 	}
 	c.writes++
 	if c.failAt >= 0 && c.writes > c.failAt {
@@ -498,10 +517,22 @@ func run(rc *kernel.RunCtx) {
 		rc.Stats.Probe("base-context-carries-a-logger")
 	}
 	nTasks := tp.Range(1, 5)
+	// Some runs are crowds: many clients with one request each, so that more
+	// requests are in flight at once than the usual handful (every pool is
+	// then emptied and refilled by many, and anything kept per request in
+	// progress is held many times over).
+	crowd := tp.Bool(1, 48)
+	if crowd {
+		nTasks = tp.Range(6, 40)
+		rc.Stats.Probe("crowd-of-clients")
+	}
 	plans := make([][]*reqSpec, nTasks)
 	methods := []string{"GET", "POST", "PUT", "DELETE", "PATCH"}
 	for ti := range plans {
 		for n := tp.Range(1, 3); n > 0; n-- {
+			if crowd && len(plans[ti]) > 0 {
+				break
+			}
 			id := len(w.specs)
 			sp := &reqSpec{
 				id:      id,
@@ -520,6 +551,10 @@ func run(rc *kernel.RunCtx) {
 				sp.status = []int{200, 201, 204, 400, 404, 500, 503, 101}[tp.Choose(8)]
 				if sp.status != http.StatusSwitchingProtocols && tp.Bool(1, 6) {
 					sp.early = []int{100, 102, 103}[tp.Choose(3)]
+					sp.earlyN = 1
+					if tp.Bool(1, 3) {
+						sp.earlyN = 2
+					}
 				}
 			}
 			sp.failAt = -1
@@ -528,6 +563,11 @@ func run(rc *kernel.RunCtx) {
 				rc.Stats.Fault("client-write-error")
 			}
 			sp.panics = tp.Bool(1, 10)
+			if sp.status != http.StatusSwitchingProtocols && tp.Bool(1, 8) {
+				sp.emptyW = true
+				rc.Stats.Probe("handler-starts-with-empty-write")
+			}
+			sp.lateHdr = tp.Bool(1, 4)
 			// Twins: a request that has method, host and request URI (and
 			// sometimes the remote address) in common with an earlier one but
 			// its own headers, body, context value, status and reply.
@@ -597,6 +637,8 @@ func run(rc *kernel.RunCtx) {
 		code  int
 		body  string
 		early int
+		links string // Link headers of the informational responses, in order
+		reply string // X-Reply header the response was committed with
 	}
 	results := map[int]result{}
 
@@ -617,10 +659,12 @@ func run(rc *kernel.RunCtx) {
 
 					return
 				}
-				res := result{code: rec.code, body: string(rec.body), early: len(rec.infos)}
+				res := result{code: rec.code, body: string(rec.body), early: len(rec.infos), links: strings.Join(rec.links, " ")}
 				if rec.code == 0 {
 					res.code = http.StatusOK // what the server sends when the handler set nothing
+					rec.sent = rec.hdr.Clone()
 				}
+				res.reply = rec.sent.Get("X-Reply")
 				k.Tell("request.end", func() {
 					w.cur[ti] = -1
 					results[sp.id] = res
@@ -671,26 +715,40 @@ func run(rc *kernel.RunCtx) {
 		if wantCode == 0 {
 			wantCode = http.StatusOK
 		}
+		// What the handler set and what its client got differ in one case: a
+		// write made before the status commits 200 (net/http), and the status
+		// set afterwards is superfluous.  Which of the two the "finished"
+		// record should report is not settled by the statement: not judged.
+		setCode := wantCode
+		if sp.emptyW {
+			wantCode = http.StatusOK
+		}
 		wantEarly := 0
+		var wantLinks []string
 		if sp.early != 0 {
-			wantEarly = 1
+			wantEarly = sp.earlyN
+			for i := 0; i < sp.earlyN; i++ {
+				wantLinks = append(wantLinks, "</hint-"+kernel.Itoa(sp.id)+"-"+kernel.Itoa(i)+">")
+			}
 		}
 		wantBody := sp.reply
 		switch {
 		case sp.status == http.StatusSwitchingProtocols:
 			wantBody = ""
-		case sp.failAt == 0:
+		case sp.failAt == 0, sp.failAt == 1 && sp.emptyW:
 			wantBody = ""
 		case sp.failAt == 1:
 			wantBody = sp.reply[:len(sp.reply)/2]
 		}
-		if res.code != wantCode || res.body != wantBody || res.early != wantEarly {
+		wantReply := "reply-" + kernel.Itoa(sp.id)
+		if res.code != wantCode || res.body != wantBody || res.early != wantEarly || res.links != strings.Join(wantLinks, " ") || res.reply != wantReply {
 			rc.Fail("response", "LogMiddleware.Wrap", fmt.Sprintf(
-				"client of request %d received code=%d body=%q (1xx: %d), the handler wrote code=%d body=%q (1xx: %d; client gone from body write %d on)",
-				sp.id, res.code, res.body, res.early, wantCode, wantBody, wantEarly, sp.failAt))
+				"client of request %d received code=%d body=%q X-Reply=%q (1xx: %d, Link %q), the handler wrote code=%d body=%q X-Reply=%q (1xx: %d, Link %q; client gone from body write %d on; first write empty and before the status: %v)",
+				sp.id, res.code, res.body, res.reply, res.early, res.links, wantCode, wantBody, wantReply, wantEarly, strings.Join(wantLinks, " "), sp.failAt, sp.emptyW))
 
 			return
 		}
+		finishedJudged := setCode == wantCode
 		if sink != nil {
 			// The records went to a real handler: judged below, by line.
 			continue
@@ -703,7 +761,7 @@ func run(rc *kernel.RunCtx) {
 				// the statement covers invocations that return.
 				continue
 			}
-			if l.msg == "finished" && (!l.has || l.code != wantCode) {
+			if l.msg == "finished" && finishedJudged && (!l.has || l.code != wantCode) {
 				rc.Fail("finished-code", "LogMiddleware.Wrap", fmt.Sprintf(
 					"the \"finished\" record of request %d reports code=%d (present=%v), the handler set %d", sp.id, l.code, l.has, wantCode))
 
